@@ -606,7 +606,7 @@ pub fn run(ctx: &Ctx) -> i32 {
     acc.samples.truncate(0);
     acc.samples.push(json!({"channel": "duplicate_key", "payload": "esc_seq_escaped", "document": gen_doc(0, 1, 1, 1, false)}));
     let meta = Meta {
-        level: "exploration",
+        level: "model_checking",
         rule: "(a) every failing (input, target) pair of the C01 token space up to the length bound, via from_str and from_reader, x crop radii; (b) 7 reflection channels x 12 payloads (terminal escapes written as YAML escapes and raw) x padding before/after the reflected text (multi-byte, up to 20000 characters) x LF|CRLF x from_str|from_reader x 6 crop radii; each error rendered with Display, render, user formatter, custom formatter, snippets off and (string input) the miette adapter; non-trivial = the input contains a character that must be neutralised or a line longer than the radius".into(),
         exhaustive: true,
         bounds: json!({"max_tokens": max_len, "radii": RADII, "channels": CHANNELS, "payloads": PAYLOADS.iter().map(|p| p.0).collect::<Vec<_>>(), "paddings": pads}),
